@@ -68,6 +68,9 @@ def gen_plan(seed, tier="quick"):
             "callers": plans.gen_callers(r, driver, r.choice([1, 2, 2, 3]), 3,
                                          mix=(0.6, 0.15, 0.25), allow_raise=False,
                                          allow_cancel=False, parallel=0.08,
+                                         # (cancellation on the gateway whose reports carry sequence numbers: a
+                                         # cancelled caller's late report cannot reach anybody else there)
+                                         cancel_sends=(driver == "tridonic"),
                                          cats=_cats(r, driver)),
             "traffic": [], "deadline_s": 600}
     if driver in ("luba", "sci"):
@@ -78,6 +81,16 @@ def gen_plan(seed, tier="quick"):
             plan["traffic"].append({"t_us": r.choice([0, 500, 5000, 20000, 60000, 150000]),
                                     "frames": [[q[0], q[1]]],
                                     "answer": r.choice([None, ["value", 0], ["value", 0], ["error", 0]])})
+    if driver != "hasseb":
+        # event messages of other bus units (every addressing scheme, fields on their
+        # boundaries), also between one of our commands and its answer
+        e = plans.rng_for(seed, PROP + "-events")
+        for _ in range(e.choice([0, 0, 1, 2, 3])):
+            b0 = e.choice([0x00, 0x02, 0x7E, 0x80, 0x82, 0xBE, 0xC0, 0xC2, 0xFC, e.randrange(256) & 0xFE])
+            b1 = e.choice([0x00, 0x04, 0x7C, 0x80, 0x84, 0xFC, e.randrange(256)])
+            plan["traffic"].append({"t_us": e.choice([0, 500, 5000, 20000, 60000, 150000, e.randrange(0, 300000)]),
+                                    "frames": [[24, (b0 << 16) | (b1 << 8) | e.randrange(256)]], "answer": None})
+        plan["traffic"].sort(key=lambda t: t["t_us"])
     _unique_outs(r, plan)
     return plan
 
